@@ -87,7 +87,7 @@ def do_filter(files):
                 rc, o = sh('go build ./... && go vet -tags verif . >/dev/null 2>&1; go build -tags verif ./...', cwd=w, timeout=300)
                 if rc != 0:
                     return n, 'nobuild'
-                rc, o = sh('go test -vet=off -count=1 -timeout 120s ./...', cwd=w, timeout=400)
+                rc, o = sh('go test -vet=off -count=1 -timeout 20s ./...', cwd=w, timeout=120)
                 return n, 'suitepass' if rc == 0 else 'suitefail'
             finally:
                 open(w + '/' + f, 'w').write(orig)
